@@ -442,6 +442,7 @@ fn gen_sink(rng: &mut Rng, cfg: &GenCfg, cur: &Cursor) -> Sink {
                 BufKind::Deque,
                 BufKind::NdView,
                 BufKind::NdStrided,
+                BufKind::NdReversed,
                 BufKind::Sim,
                 BufKind::Sim,
                 BufKind::OwnedVec,
